@@ -656,17 +656,20 @@ def check_c11(rep):
     rep.cov["states"] = st["distinct"]
     rep.cov["transitions"] = st["generated"]
     rep.cov["traces_validated_against_impl"] = len(lines)
-    rep.cov["evaluations"] = sum(len(e["enc"]) + len(e["dec"]) + len(e["pairs"]) + len(e["rot"]) + len(e["coef"]) for e in evs)
+    rep.cov["evaluations"] = sum(len(e.get("enc", [])) + len(e.get("dec", [])) + len(e.get("rt", [])) + len(e["pairs"]) + len(e["rot"]) + len(e.get("coef", [])) for e in evs)
+    rep.cov["big_plain_moduli"] = [[e["n"], e["t"]] for e in evs if e["ev"] == "batch_big"]
     rep.cov["distinct_nontrivial"] = rep.cov["evaluations"]
-    rep.cov["parameter_sets"] = [[e["n"], e["t"]] for e in evs]
-    rep.cov["rule"] = ("one event per batching-compatible (N, t) with t < 2^15: all N unit vectors, all-(t-1), empty/short/random vectors encoded and decoded, arbitrary short "
+    rep.cov["parameter_sets"] = [[e["n"], e["t"]] for e in evs if e["ev"] == "batch"]
+    rep.cov["rule"] = ("plain moduli of 20..60 bits (N = 4..64, thorough ..1024): encode/decode inverse, decode a ring homomorphism on sums and negacyclic products formed independently "
+                       "of the library, rotations and column swap permute the slots as documented - exact integers (BigNat). "
+                       "One event per batching-compatible (N, t) with t < 2^15: all N unit vectors, all-(t-1), empty/short/random vectors encoded and decoded, arbitrary short "
                        "polynomials decoded, sums and negacyclic products of encoder outputs, the automorphism for every step -(N/2-1)..N/2-1 (0 = column swap) applied with "
                        "apply_galois_plain, coefficient encoding; TLC recomputes the slots as evaluations at psi^(3^i), psi^(-3^i) (psi = minimal root) and checks every item")
     for b in bad:
         d = index.get(tuple(b), {})
         rep.violation({"n": d.get("n"), "t": d.get("t")}, {"event": {"n": d.get("n"), "t": d.get("t")}})
     rep.samples += [{"n": e["n"], "t": e["t"], "enc0": e["enc"][1], "rot0": {k: e["rot"][0][k] for k in ("s", "elt")} if e["rot"] else None} for e in evs[:2]]
-    rep.assumptions += ["plain moduli above 2^15 (up to 60 bits) are not covered by this check: native TLC integers only",
+    rep.assumptions += ["for plain moduli above 2^15 the slots are not recomputed from psi: the encoding is shown to be a ring isomorphism compatible with the rotations (which fixes it up to the order of the slots)",
                         "the element associated with a step is read off create_galois_keys_from_steps"]
     log("[C11] %d parameter sets, %d items, %d events rejected" % (len(evs), rep.cov["evaluations"], len(bad)))
 
